@@ -16,6 +16,13 @@ history satisfies the property:
                   request that is not waiting for an acknowledgement reaches that request: the call has
                   returned it by the next point at which the connection is idle.
 
+A *retransmission* (datagram transports: the same message of the peer, same message ID, seen again because the network
+duplicated it or the peer re-sent it when our acknowledgement was lost, RFC 7252 §4.2/§4.5) is not another message: it
+produces nothing, answers nothing and may be given to nobody — in particular not to a later request that re-uses the
+token of the exchange the message belonged to.  Only retransmissions of CONFIRMABLE messages are read this way (for
+non-confirmable ones de-duplication is a SHOULD, §4.5; a repeated non-confirmable message counts as a new message, in
+favour of the implementation).
+
 "Outstanding" is read narrowly (in favour of the implementation): a token is outstanding from the start
 of an accepted call until that call returns *or* the peer has produced a message carrying the token
 (from then on the exchange is answered at protocol level even if the call has not returned yet).
@@ -27,6 +34,7 @@ abbrev Token := List UInt8
 inductive HEv
   | start (c : Nat) (tok : Option Token) (direct : Bool)   -- direct: the call does not wait for an acknowledgement first
   | peer (tok : Token) (tag : String) (complete : Bool)     -- complete: a whole response (not a bare ACK / reset)
+  | again (tok : Token) (tag : String)                      -- retransmission of a confirmable message already in the history
   | idle                                                    -- the connection was run until nothing could move
   | retOk (c : Nat) (tok : Token) (tag : String)
   | retErr (c : Nat) (err : String)
@@ -78,6 +86,7 @@ def jstep (s : JState) : HEv → Except String JState
       | _ => []
     .ok { s with produced := (tok, tag) :: s.produced, producedAt := (tok, tag, s.clock) :: s.producedAt, expect := exp ++ s.expect,
                  active := s.active.map (fun a => if a.tok = tok then { a with answered := true } else a) }
+  | .again _ _ => .ok s      -- the same message once more: nothing new is produced, nobody is answered
   | .idle => if s.expect.isEmpty then .ok s else .error "response-reaches"
   | .retOk c tok tag =>
     match s.toks.lookup c with
